@@ -9,6 +9,7 @@ CONSTANTS
   MaxObjs = 1
   Parents = {"none"}
   Fmts = {"F1", "F2"}
+  BadOverrides = FALSE
   SecondReport = FALSE
   Variant = "pin_inherited"
 INVARIANT ExactlyOnce
